@@ -367,7 +367,11 @@ def _check_cli(case):
         if kind in ("crash", "older-version"):
             src_text = text if kind == "crash" else _ragged_pin(case["seed"] + 1, case["n_spectra"] + 20)
             pin.write_text(src_text)
-            real = cli.pin_to_valid_tsv
+            # the converter is patched wherever the CLI may look it up (its own namespace and the parser module)
+            from mokapot.parsers import pin_to_tsv as ptmod
+
+            real = ptmod.pin_to_valid_tsv
+            holders = [m for m in (cli, ptmod) if getattr(m, "pin_to_valid_tsv", None) is real]
             nlines = src_text.count("\n")
             j = case["j"] % (nlines + 1)
 
@@ -385,7 +389,8 @@ def _check_cli(case):
 
                 return real(f_in, Proxy(), **kw)
 
-            cli.pin_to_valid_tsv = crashing
+            for m in holders:
+                m.pin_to_valid_tsv = crashing
             try:
                 try:
                     _cli(pin, hdir / "out_earlier")
@@ -394,7 +399,8 @@ def _check_cli(case):
                 except BaseException:  # noqa: BLE001
                     pass
             finally:
-                cli.pin_to_valid_tsv = real
+                for m in holders:
+                    m.pin_to_valid_tsv = real
             pin.write_text(text)  # the user (re-)provides the input for the observed run
         elif kind == "foreign-valid":
             left.write_text("SpecId\tLabel\tScanNr\tExpMass\tf0\tf1\tPeptide\tProteins\nzz\t1\t5\t1.0\t0.5\t0.5\tPEPK\tPX\n")
